@@ -1,5 +1,5 @@
 """Texts for MANIFEST.json."""
-HOOK_COMMITS = ["3a899bd", "d84b5a0", "f4cc99e", "d898578", "f3c8c25", "2b46f93"]
+HOOK_COMMITS = ["3a899bd", "d84b5a0", "f4cc99e", "d898578", "f3c8c25", "2b46f93", "06165f2"]
 
 NOTES = ("All checks: ./check <id> --tier quick|thorough. Technique family: machine-checked proof in Lean 4 over executable models, "
          "tied to the source by a per-run correspondence (see DESIGN.md). Properties listed under not_applicable are not yet "
